@@ -1168,7 +1168,9 @@ func (g *Gen) numFor(depth, d int) []Stmt {
 		st.A, st.B, st.C = num(0), num(2), num(0.5)
 		g.use("numfor-fracstep")
 	case 3:
-		st.A, st.B = g.exprInt(1), &Bin{Op: "+", A: g.exprInt(0), B: num(3)}
+		// init reduced to [-500, 499]: with |init| >= 2^53 the interpreter's first index (init-step)+step
+		// (as lvm.c) differs from the manual's `var = init` by one ulp (notes/C01.md, wave 5)
+		st.A, st.B = bin("-", bin("%", g.exprInt(1), num(1000)), num(500)), &Bin{Op: "+", A: g.exprInt(0), B: num(3)}
 		st.C = num(float64([]int{1, 2, 3}[g.R.Intn(3)]))
 		needGuard = true
 		// bound: loop at most ~ (range) iterations — operands small by construction; guard with break counter
